@@ -242,6 +242,26 @@ def run(ctx):
                 ctx.violation("C12:tile_for_point:concurrent-threads", "lookup depth %d lat %.5f lon %.5f [%s] asked while three other threads were looking up other points: returned %s, "
                               "the cell holding the point is %s" % (d, lat, lon, csname, pos, exp), {"cs": csname, "depth": d, "lat": lat, "lon": lon})
                 break
+    def deepest():
+        """Depths 27-30, tile centres next to the square's corners, edges and centre cross.  To depth 28 the lookup is exact; at
+        depths 29 and 30 (tiles of 3e-9 / 1.5e-9 rad) its half-space scores fall below double precision and the returned tile is up
+        to 4 tiles away from the one holding the point - a genuine, recorded finding (known_findings.txt), reported under a key of
+        its own so that any other containment failure is still a violation."""
+        rng = __import__("random").Random(20260929)
+        for csname, cs in toastlat.coordsystems():
+            psi = toastlat.psi_for(t, csname)
+            for n in (27, 28, 29, 30):
+                h = 2 ** (n - 1)
+                for k in range(24 if q else 200):
+                    x = rng.choice([0, 1, 2, 2 ** n - 1, 2 ** n - 2, h - 2, h - 1, h, h + 1, rng.randrange(2 ** n)])
+                    y = rng.choice([0, 1, 2, 2 ** n - 1, 2 ** n - 2, h - 2, h - 1, h, h + 1, rng.randrange(2 ** n)])
+                    lon, lat = map(float, lattice.vec_to_lonlat(psi.centre(n, x, y)))
+                    pos = tuple(toast.toast_tile_for_point(n, lat, lon, coordsys=cs).pos)
+                    ctx.count()
+                    if pos != (n, x, y):
+                        key = "C12:tile_for_point:containment-deep" if n <= 28 else "C12:tile_for_point:depth-29-30-double-precision"
+                        ctx.violation(key, "centre of tile (%d, %d, %d) [%s]: the lookup at depth %d returns %s" % (n, x, y, csname, n, pos), {"cs": csname, "pos": (n, x, y)})
+    deepest()
     threaded()
     gens = [work(n_, c_) for n_, c_ in toastlat.coordsystems()]
     while gens:
